@@ -284,6 +284,38 @@ Theorem C14_fs_relocate :
 Proof. exact fs_parse_recipe_relocate. Qed.
 Print Assumptions C14_fs_relocate.
 
+(* ---- histories: chains of runs, each continuing the one before it or starting afresh ---- *)
+(* The options of every run of every chain are merge_options of THAT run's declarations and THAT
+   run's user_options: nothing an earlier link declared or was given reaches a later link, whether
+   the link continues the earlier run (continuation file) or not. *)
+Theorem C14_chain_options_own :
+  forall (V : Type) (ls : list (link V)) prev,
+    chain_options prev ls = map (@own_options V) ls.
+Proof. exact chain_options_own. Qed.
+Print Assumptions C14_chain_options_own.
+
+(* the same links behind two different histories have the same options *)
+Theorem C14_chain_history_free :
+  forall (V : Type) (before before' ls : list (link V)) prev prev',
+    skipn (List.length before) (chain_options prev (before ++ ls)) =
+    skipn (List.length before') (chain_options prev' (before' ++ ls)).
+Proof. exact chain_options_history_free. Qed.
+Print Assumptions C14_chain_history_free.
+
+(* the property's rule at link k of any chain: the supplied value if this link supplies one, else
+   the default this link's recipe declares; the run fails (recipe error) iff this link has neither *)
+Theorem C14_chain_option_rule :
+  forall (V : Type) (ls : list (link V)) prev k (l : link V),
+    nth_error ls k = Some l ->
+    (forall o n d, nth_error (chain_options prev ls) k = Some (Ok o) ->
+                   last_decl n (l_decls l) = Some d ->
+                   lookup n o = match lookup n (l_user l) with Some v => Some v | None => o_default d end) /\
+    ((exists e, nth_error (chain_options prev ls) k = Some (Err e)) <->
+     (exists d, In d (l_decls l) /\ lookup (o_name d) (l_user l) = None /\ o_default d = None)) /\
+    (forall e, nth_error (chain_options prev ls) k = Some (Err e) -> exists m, e = DGE m).
+Proof. exact chain_option_rule. Qed.
+Print Assumptions C14_chain_option_rule.
+
 (* ---- non-vacuity: concrete instances, closed by computation ---- *)
 Definition ex_env : menv string string :=
   [("m0", mkMacro [] [("a", "1"); ("b", "junk")] []);
@@ -358,4 +390,24 @@ Example C14_ex_include_string :
   split_includes " m1 ,m2,  , big macro ," = ["m1"; "m2"; "big macro"] /\ split_includes "" = [] /\
   join_includes [(" ", "m1", " "); ("", "m2", ""); ("  ", "", " "); (" ", "big macro", " "); ("", "", "")]
   = " m1 ,m2,   , big macro ,".
+Proof. vm_compute. repeat split; reflexivity. Qed.
+
+
+(* four chained runs, option batch (default 1) supplied as 7 / not at all / 3 / not at all, and a
+   required option supplied only by the first run: the model (the code) against the reading in which
+   a continued run inherits the options of the run it continues *)
+Example C14_ex_chain :
+  let d := [mkOpt "batch" (Some (VInt 1))] in
+  let ls := [mkLink d [("batch", VInt 7)] false; mkLink d [] true;
+             mkLink d [("batch", VInt 3)] true; mkLink d [] true] in
+  let rq := [mkLink [mkOpt "region" None] [("region", VStr "EU")] false;
+             mkLink [mkOpt "region" None] [] true] in
+  chain_options None ls = [Ok [("batch", VInt 7)]; Ok [("batch", VInt 1)];
+                           Ok [("batch", VInt 3)]; Ok [("batch", VInt 1)]]
+  /\ inheriting_options [] ls = [Ok [("batch", VInt 7)]; Ok [("batch", VInt 7)];
+                                 Ok [("batch", VInt 3)]; Ok [("batch", VInt 3)]]
+  /\ chain_options None rq = [Ok [("region", VStr "EU")]; Err (DGE "No definition supplied for option")]
+  /\ inheriting_options [] rq = [Ok [("region", VStr "EU")]; Ok [("region", VStr "EU")]]
+  /\ map (fun r => match r with Ok (_, c) => Some c | Err _ => None end)
+         (run_chain None (ls ++ rq)) = [Some 1; Some 2; Some 3; Some 4; Some 1; None]%nat.
 Proof. vm_compute. repeat split; reflexivity. Qed.
